@@ -158,6 +158,7 @@ class Interp:
     def assume(self, c):
         if isinstance(c, Sym): c = self.boolof(c)
         elif not z3.is_expr(c): c = z3.BoolVal(bool(c))
+        if z3.is_false(z3.simplify(c)): raise PathEnd()           # e.g. a concrete test input outside the harness's domain
         self.pc.append(c); self.solver.add(c)
         if self.model is not None and not z3.is_true(self.model.eval(c, model_completion=True)): self.model = None
 
@@ -219,7 +220,7 @@ class Interp:
         if z3.is_true(cond): return
         if z3.is_false(cond) or self.check(z3.Not(cond)):
             e = Finding(kind, msg)
-            if z3.is_false(cond): self.check()
+            if z3.is_false(cond) and not self.check(): raise PathEnd()
             e.model = self.get_model(); raise e
 
     def defer_obligation(self, cond, kind, msg):
